@@ -15,7 +15,9 @@ import (
 	"fmt"
 	"go/ast"
 	"go/constant"
+	"go/parser"
 	"go/token"
+	"path/filepath"
 	"sort"
 	"strconv"
 	"strings"
@@ -1409,6 +1411,17 @@ func (x *xl) function() (lean string, err error) {
 	return sb.String(), nil
 }
 
+// parseTransFile: whitelisted files live in /repo; the probe functions of the CTR self-test ("@verif/…") live in
+// the framework itself (the root is three levels above -out).
+func parseTransFile(rel string) (*token.FileSet, *ast.File, error) {
+	if strings.HasPrefix(rel, "@verif/") {
+		fset := token.NewFileSet()
+		f, err := parser.ParseFile(fset, filepath.Join(*outDir, "..", "..", "..", strings.TrimPrefix(rel, "@verif/")), nil, parser.ParseComments)
+		return fset, f, err
+	}
+	return parseFile(rel)
+}
+
 func genTrans(spec transSpec) func() (string, int, error) {
 	return func() (string, int, error) {
 		var sb strings.Builder
@@ -1419,7 +1432,7 @@ func genTrans(spec transSpec) func() (string, int, error) {
 		var names []string
 		for i := range spec.funcs {
 			fn := &spec.funcs[i]
-			_, f, err := parseFile(fn.file)
+			_, f, err := parseTransFile(fn.file)
 			if err != nil {
 				return "", 0, err
 			}
